@@ -303,8 +303,10 @@ pub(crate) fn run(opts: &Opts, report: &mut Report) {
             fetch_headers: vec![2],
             raised: std::cell::RefCell::new(None),
         };
-        let bound = if thorough { 2 } else { 1 };
-        let max_runs = if thorough { 6000 } else { 1500 };
+        // (two deviations for the batch-3 histories; the others stay at one: the pair space of all
+        // 72 histories did not finish under the run cap)
+        let bound = if thorough && batch == 3 { 2 } else { 1 };
+        let max_runs = if thorough { 8000 } else { 1500 };
         let name = sc.name.clone();
         let regs2 = regs.clone();
         let mut nonempty = 0u64;
@@ -332,8 +334,15 @@ pub(crate) fn run(opts: &Opts, report: &mut Report) {
                         } else {
                             devs.iter().map(|(_, d)| format!("{:?}", d).split('(').next().unwrap_or("").to_owned()).collect()
                         };
+                        // stale cells after raising a start number over indexed data have one root
+                        // cause, whatever other deviation the run contains
+                        let sig = if class == "spent-cell-served" && devs.iter().any(|(_, d)| matches!(d, Dev::SetScripts(..))) {
+                            "spent-cell-served/SetScripts".to_owned()
+                        } else {
+                            format!("{}/{}", class, dev_kinds.join("+"))
+                        };
                         report.violation(
-                            format!("{}/{}", class, dev_kinds.join("+")),
+                            sig,
                             format!("[{}] {}", name, items[0]),
                             json!({"scenario": name, "deviations": explore::devs_json(devs), "all": items.iter().take(8).collect::<Vec<_>>(), "trace": traced.trace}),
                         );
